@@ -19,8 +19,13 @@ b parser_h "-json-suppress" --no-default-features --features json,suppress
 for c in codegen_h runtime_h router_h ctx_h runtime_dyn_h build_h locale_h fmt_h; do b $c ""; done
 # ctx_h with reactive_graph's `effects` (Effect / RenderEffect run natively; C16 runs every sequence on both builds): own target dir
 b ctx_h "-effects" --no-default-features --features effects
+# the code generator for the other two file formats (C09: what YAML / JSON5 can say and JSON cannot)
+CG="interpolate_display,plurals,format_datetime,format_list,format_nums,format_currency,icu_compiled_data,ssr"
+b codegen_h "-yaml_files" --no-default-features --features "yaml_files,$CG"
+b codegen_h "-json5_files" --no-default-features --features "json5_files,$CG"
 # leptos_i18n WITHOUT icu_compiled_data (custom ICU data provider, C18 part v): own target dir, never shared
 b fmt_np_h "-np"
+b fmt_np_h "-np-derived" --no-default-features --features derived
 # probe crates: compile the dependency graph of a generated user crate once
 python3 - <<'PY'
 import sys
